@@ -1,7 +1,7 @@
 (* C11/Invariants.v — facts about the deserializer model that hold for EVERY input (used by C12 and by the
    round-trip proof): positions grow and stay in the buffer, decoded strings are the bytes found at their recorded
    offset, the only panics are the ones named in C12/Spec.v, the fuel of the field loop is never exhausted. *)
-From ZV Require Import Base.Bytes Base.Res Base.Sig C10.Model C11.Model C11.Lemmas.
+From ZV Require Import Base.Bytes Base.Res Base.Sig C10.Model C11.Model C11.Lemmas C11.SigProofs.
 From Coq Require Import Lia ZifyBool ZifyN ZifyNat.
 Open Scope N_scope.
 
@@ -79,15 +79,350 @@ Proof.
     destruct (all_zero z); cbn in H; [|discriminate]. destruct (utf8_valid s'); discriminate.
 Qed.
 
+(* ---------- the general value decoder ---------- *)
+Lemma de_value_eq vf s d e b pos : de_value vf s d e b pos =
+  match s with
+  | SUnit | SMaybe _ => Err EData
+  | SU8 => let* (_, p) := next_slice b pos 1 in Ok p
+  | SBool => let* (n, p) := de_u32 e b pos in if n <=? 1 then Ok p else Err EData
+  | SI16 | SU16 => de_fixed b pos 2
+  | SI32 | SU32 => de_fixed b pos 4
+  | SI64 | SU64 | SF64 => de_fixed b pos 8
+  | SStr => let* (_, _, p) := de_str true e b pos in Ok p
+  | SObjPath => let* (s', _, p) := de_str true e b pos in if validate_object_path s' then Ok p else Err EData
+  | SSig => let* (s', _, p) := de_str false e b pos in match parse_sig s' with Some _ => Ok p | None => Err EData end
+  | SFd => let* (_, _) := de_u32 e b pos in Err EData
+  | SArray c =>
+      let* p0 := parse_padding b pos 4 in
+      let* d' := inc_array d in
+      let* (n, p1) := de_u32 e b p0 in
+      let* start := parse_padding b p1 (align_dbus c) in
+      arr_loop (de_value vf c d' e b) b (align_dbus c) (start + n) (S (length b)) start
+  | SDict kt vt =>
+      let* p0 := parse_padding b pos 4 in
+      let* d' := inc_array d in
+      let* (n, p1) := de_u32 e b p0 in
+      let* start := parse_padding b p1 8 in
+      dict_loop (de_value vf kt d' e b) (de_value vf vt d' e b) b (start + n) (S (length b)) start
+  | SStruct fs =>
+      let* p0 := parse_padding b pos 8 in
+      let* d' := inc_struct d in
+      struct_go (fun f q => de_value vf f d' e b q) fs p0
+  | SVariant =>
+      let* (vs, vstart) := variant_sig e b pos in
+      let* d' := inc_variant d in
+      match vf with
+      | O => Err EFuel
+      | S vf' => de_value vf' vs d' e b vstart
+      end
+  end.
+Proof. destruct vf; destruct s; reflexivity. Qed.
+
+Lemma depth_check_no_panic d p : depth_check d <> Panic p.
+Proof. unfold depth_check. repeat (destruct (_ <? _); try discriminate). Qed.
+Lemma inc_no_panic d p : inc_array d <> Panic p /\ inc_struct d <> Panic p /\ inc_variant d <> Panic p.
+Proof. repeat split; apply depth_check_no_panic. Qed.
+
+Lemma de_fixed_ok b pos a p : de_fixed b pos a = Ok p -> pos + a <= p /\ p <= len b.
+Proof.
+  unfold de_fixed. intros H. apply bind_ok in H. destruct H as (p0 & H0 & H).
+  apply bind_ok in H. destruct H as ([l p1] & H1 & H). injection H as <-.
+  apply parse_padding_ok in H0. apply next_slice_ok in H1. lia.
+Qed.
+Lemma de_fixed_no_panic b pos a p : de_fixed b pos a <> Panic p.
+Proof.
+  unfold de_fixed. intros H. apply bind_panic in H. destruct H as [H|(p0 & _ & H)]; [eapply parse_padding_no_panic; eauto|].
+  apply bind_panic in H. destruct H as [H|([? ?] & _ & H)]; [eapply next_slice_no_panic; eauto|discriminate].
+Qed.
+
+Lemma variant_sig_ok e b pos vs vst : variant_sig e b pos = Ok (vs, vst) -> pos + 2 <= vst /\ vst <= len b.
+Proof.
+  unfold variant_sig. intros H. apply bind_ok in H. destruct H as ([[sg st0] p1] & H0 & H).
+  pose proof H0 as H0'. apply de_str_ok in H0. destruct H0 as (Ha & Hb & Hc & _).
+  destruct (parse_sig sg) as [sg0|]; [|discriminate].
+  destruct (nth_error b (N.to_nat pos)) as [lb|]; [|discriminate].
+  destruct (len b <? pos + 1 + bn lb); [discriminate|].
+  destruct (parse_sig _) as [vs'|]; [|discriminate].
+  destruct (_ || _); [discriminate|].
+  destruct (len b <? pos + 1 + bn lb + 1) eqn:Evs; [discriminate|]. injection H as <- <-. lia.
+Qed.
+Lemma variant_sig_no_panic e b pos p : variant_sig e b pos <> Panic p.
+Proof.
+  unfold variant_sig. intros H. apply bind_panic in H. destruct H as [H|([[sg st0] p1] & H0 & H)].
+  - eapply de_str_no_panic; eauto.
+  - unfold de_str in H0. apply bind_ok in H0. destruct H0 as ([n p0] & H0 & _).
+    apply de_u8_nth in H0. destruct H0 as (c & Hc & _).
+    destruct (parse_sig sg) as [sg0|]; [|discriminate]. rewrite Hc in H.
+    destruct (len b <? pos + 1 + bn c); [discriminate|].
+    destruct (parse_sig _) as [vs|]; [|discriminate].
+    destruct (_ || _); [discriminate|].
+    destruct (len b <? pos + 1 + bn c + 1); discriminate.
+Qed.
+
+Lemma arr_loop_no_panic elem b al endp : (forall q p, elem q <> Panic p) ->
+  forall k q p, arr_loop elem b al endp k q <> Panic p.
+Proof.
+  intros He. induction k as [|k IH]; intros q p H; cbn [arr_loop] in H; destruct (q =? endp); try discriminate.
+  apply bind_panic in H. destruct H as [H|(q1 & _ & H)]; [eapply parse_padding_no_panic; eauto|].
+  apply bind_panic in H. destruct H as [H|(q2 & _ & H)]; [eapply He; eauto|].
+  destruct (endp <? q2); [discriminate|]. eapply IH; eauto.
+Qed.
+Lemma dict_loop_no_panic kd vd b endp : (forall q p, kd q <> Panic p) -> (forall q p, vd q <> Panic p) ->
+  forall k q p, dict_loop kd vd b endp k q <> Panic p.
+Proof.
+  intros Hk Hv. induction k as [|k IH]; intros q p H; cbn [dict_loop] in H; destruct (q =? endp); try discriminate.
+  apply bind_panic in H. destruct H as [H|(q1 & _ & H)]; [eapply parse_padding_no_panic; eauto|].
+  apply bind_panic in H. destruct H as [H|(q2 & _ & H)]; [eapply Hk; eauto|].
+  destruct (endp <? q2); [discriminate|].
+  apply bind_panic in H. destruct H as [H|(q3 & _ & H)]; [eapply Hv; eauto|].
+  destruct (endp <? q3); [discriminate|]. eapply IH; eauto.
+Qed.
+Lemma struct_go_no_panic fld l : Forall (fun f => forall q p, fld f q <> Panic p) l ->
+  forall q p, struct_go fld l q <> Panic p.
+Proof.
+  induction 1 as [|f r Hf Hr IH]; intros q p H; cbn [struct_go] in H; [discriminate|].
+  apply bind_panic in H. destruct H as [H|(q' & _ & H)]; [eapply Hf; eauto|eapply IH; eauto].
+Qed.
+
+Lemma de_value_no_panic : forall vf s d e b pos p, de_value vf s d e b pos <> Panic p.
+Proof.
+  induction vf as [|vf IHvf]; induction s using sig_ind'; intros d e b pos p; rewrite de_value_eq; intros Hp;
+    try discriminate;
+    try (apply de_fixed_no_panic in Hp; exact Hp);
+    try (apply bind_panic in Hp; destruct Hp as [Hp|([? ?] & _ & Hp)];
+         [first [solve [eapply next_slice_no_panic; eauto] | solve [eapply de_u32_no_panic; eauto]]
+         |first [discriminate | destruct (_ <=? _); discriminate]]; fail);
+    try (apply bind_panic in Hp; destruct Hp as [Hp|([[s' ?] ?] & _ & Hp)];
+         [eapply de_str_no_panic; eauto
+         |first [discriminate | destruct (validate_object_path s'); discriminate | destruct (parse_sig s'); discriminate]]; fail).
+  (* arrays, dicts, structures, variants: twice (vf = 0 and vf = S _) *)
+  all: try (apply bind_panic in Hp; destruct Hp as [Hp|(p0 & _ & Hp)]; [eapply parse_padding_no_panic; eauto|];
+            apply bind_panic in Hp; destruct Hp as [Hp|(d' & _ & Hp)]; [eapply depth_check_no_panic; eauto|]).
+  all: try (apply bind_panic in Hp; destruct Hp as [Hp|([n p1] & _ & Hp)]; [eapply de_u32_no_panic; eauto|];
+            apply bind_panic in Hp; destruct Hp as [Hp|(start & _ & Hp)]; [eapply parse_padding_no_panic; eauto|]).
+  all: try (revert Hp; apply arr_loop_no_panic; intros; apply IHs; fail).
+  all: try (revert Hp; apply dict_loop_no_panic; intros; [apply IHs1|apply IHs2]; fail).
+  all: try (revert Hp; apply struct_go_no_panic; revert H; apply Forall_impl; intros f Hf q p'; apply Hf; fail).
+  all: try (apply bind_panic in Hp; destruct Hp as [Hp|([vs vst] & _ & Hp)]; [eapply variant_sig_no_panic; eauto|];
+            apply bind_panic in Hp; destruct Hp as [Hp|(d' & _ & Hp)]; [eapply depth_check_no_panic; eauto|];
+            first [discriminate | eapply IHvf; eauto]).
+Qed.
+
+(* positions never move backwards *)
+Lemma arr_loop_mono elem b al endp : (forall q p, elem q = Ok p -> q <= p) ->
+  forall k q p, arr_loop elem b al endp k q = Ok p -> q <= p.
+Proof.
+  intros He. induction k as [|k IH]; intros q p H; cbn [arr_loop] in H; destruct (q =? endp); try discriminate;
+    try (injection H as <-; lia).
+  apply bind_ok in H. destruct H as (q1 & H1 & H). apply bind_ok in H. destruct H as (q2 & H2 & H).
+  destruct (endp <? q2); [discriminate|]. apply parse_padding_ok in H1. apply He in H2. apply IH in H. lia.
+Qed.
+Lemma dict_loop_mono kd vd b endp : (forall q p, kd q = Ok p -> q <= p) -> (forall q p, vd q = Ok p -> q <= p) ->
+  forall k q p, dict_loop kd vd b endp k q = Ok p -> q <= p.
+Proof.
+  intros Hk Hv. induction k as [|k IH]; intros q p H; cbn [dict_loop] in H; destruct (q =? endp); try discriminate;
+    try (injection H as <-; lia).
+  apply bind_ok in H. destruct H as (q1 & H1 & H). apply bind_ok in H. destruct H as (q2 & H2 & H).
+  destruct (endp <? q2); [discriminate|]. apply bind_ok in H. destruct H as (q3 & H3 & H).
+  destruct (endp <? q3); [discriminate|].
+  apply parse_padding_ok in H1. apply Hk in H2. apply Hv in H3. apply IH in H. lia.
+Qed.
+Lemma struct_go_mono fld l : Forall (fun f => forall q p, fld f q = Ok p -> q <= p) l ->
+  forall q p, struct_go fld l q = Ok p -> q <= p.
+Proof.
+  induction 1 as [|f r Hf Hr IH]; intros q p H; cbn [struct_go] in H; [injection H as <-; lia|].
+  apply bind_ok in H. destruct H as (q' & H1 & H). apply Hf in H1. apply IH in H. lia.
+Qed.
+
+Lemma de_value_mono : forall vf s d e b pos p, de_value vf s d e b pos = Ok p -> pos <= p.
+Proof.
+  induction vf as [|vf IHvf]; induction s using sig_ind'; intros d e b pos p; rewrite de_value_eq; intros Hp;
+    try discriminate;
+    try (apply de_fixed_ok in Hp; lia).
+  all: try (apply bind_ok in Hp; destruct Hp as ([l1 p1] & H1 & Hp); apply next_slice_ok in H1; injection Hp as <-; lia).
+  all: try (apply bind_ok in Hp; destruct Hp as ([n p1] & H1 & Hp); apply de_u32_ok in H1;
+            first [discriminate | destruct (n <=? 1); [injection Hp as <-; lia|discriminate]]).
+  all: try (apply bind_ok in Hp; destruct Hp as ([[s' st] p1] & H1 & Hp); apply de_str_ok in H1;
+            first [injection Hp as <-; lia
+                  | destruct (validate_object_path s'); [injection Hp as <-; lia|discriminate]
+                  | destruct (parse_sig s'); [injection Hp as <-; lia|discriminate]]).
+  all: try (apply bind_ok in Hp; destruct Hp as (p0 & HP0 & Hp); apply bind_ok in Hp; destruct Hp as (d' & _ & Hp);
+            apply parse_padding_ok in HP0).
+  all: try (apply bind_ok in Hp; destruct Hp as ([n p1] & H1 & Hp); apply bind_ok in Hp; destruct Hp as (start & H2 & Hp);
+            apply de_u32_ok in H1; apply parse_padding_ok in H2).
+  all: try (apply arr_loop_mono in Hp; [lia|intros q p'; apply IHs]).
+  all: try (apply dict_loop_mono in Hp; [lia|intros q p'; apply IHs1|intros q p'; apply IHs2]).
+  all: try (apply struct_go_mono in Hp; [lia|]; revert H; apply Forall_impl; intros f Hf q p'; apply Hf).
+  all: try (apply bind_ok in Hp; destruct Hp as ([vs vst] & H1 & Hp); apply bind_ok in Hp; destruct Hp as (d' & _ & Hp);
+            apply variant_sig_ok in H1; first [discriminate | apply IHvf in Hp; lia]).
+Qed.
+
+(* ---------- the fuel of the value decoder is never the limit ---------- *)
+Lemma variant_sig_wf e b pos vs vst : variant_sig e b pos = Ok (vs, vst) -> wf vs = true.
+Proof.
+  unfold variant_sig. intros H. apply bind_ok in H. destruct H as ([[sg st0] p1] & _ & H).
+  destruct (parse_sig sg) as [sg0|]; [|discriminate].
+  destruct (nth_error b (N.to_nat pos)) as [lb|]; [|discriminate].
+  destruct (len b <? pos + 1 + bn lb); [discriminate|].
+  destruct (parse_sig _) as [vs'|] eqn:Ep; [|discriminate].
+  destruct (_ || _) eqn:Eu; [discriminate|].
+  destruct (len b <? pos + 1 + bn lb + 1); [discriminate|]. injection H as <- <-.
+  apply parse_sig_wf in Ep. destruct Ep as [->|Hw]; [discriminate|exact Hw].
+Qed.
+
+(* a value of a well-formed type occupies at least one byte, inside the buffer *)
+Lemma arr_loop_bounds elem b al endp : (forall q p, elem q = Ok p -> q < p /\ p <= len b) ->
+  forall k q p, q <= len b -> arr_loop elem b al endp k q = Ok p -> q <= p /\ p <= len b.
+Proof.
+  intros He. induction k as [|k IH]; intros q p Hq H; cbn [arr_loop] in H; destruct (q =? endp); try discriminate;
+    try (injection H as <-; lia).
+  apply bind_ok in H. destruct H as (q1 & H1 & H). apply bind_ok in H. destruct H as (q2 & H2 & H).
+  destruct (endp <? q2); [discriminate|]. apply parse_padding_ok in H1. apply He in H2. apply IH in H; lia.
+Qed.
+Lemma dict_loop_bounds kd vd b endp : (forall q p, kd q = Ok p -> q < p /\ p <= len b) -> (forall q p, vd q = Ok p -> q < p /\ p <= len b) ->
+  forall k q p, q <= len b -> dict_loop kd vd b endp k q = Ok p -> q <= p /\ p <= len b.
+Proof.
+  intros Hk Hv. induction k as [|k IH]; intros q p Hq H; cbn [dict_loop] in H; destruct (q =? endp); try discriminate;
+    try (injection H as <-; lia).
+  apply bind_ok in H. destruct H as (q1 & H1 & H). apply bind_ok in H. destruct H as (q2 & H2 & H).
+  destruct (endp <? q2); [discriminate|]. apply bind_ok in H. destruct H as (q3 & H3 & H).
+  destruct (endp <? q3); [discriminate|].
+  apply parse_padding_ok in H1. apply Hk in H2. apply Hv in H3. apply IH in H; lia.
+Qed.
+Lemma struct_go_bounds fld b l : l <> [] -> Forall (fun f => forall q p, fld f q = Ok p -> q < p /\ p <= len b) l ->
+  forall q p, struct_go fld l q = Ok p -> q < p /\ p <= len b.
+Proof.
+  intros Hne Hall. induction Hall as [|f r Hf Hr IH]; [congruence|]. intros q p H. cbn [struct_go] in H.
+  apply bind_ok in H. destruct H as (q' & H1 & H). apply Hf in H1.
+  destruct r as [|g r']; [cbn in H; injection H as <-; lia|]. apply IH in H; [lia|discriminate].
+Qed.
+
+Lemma wf_struct fs : wf (SStruct fs) = true -> fs <> [] /\ forallb wf fs = true.
+Proof. cbn [wf]. destruct fs; [discriminate|]. intros H. split; [discriminate|exact H]. Qed.
+
+Lemma de_value_bounds : forall vf s d e b pos p, wf s = true -> de_value vf s d e b pos = Ok p -> pos < p /\ p <= len b.
+Proof.
+  induction vf as [|vf IHvf]; induction s using sig_ind'; intros d e b pos p Hw; rewrite de_value_eq; intros Hp;
+    try discriminate;
+    try (apply de_fixed_ok in Hp; lia).
+  all: try (apply bind_ok in Hp; destruct Hp as ([l1 p1] & H1 & Hp); apply next_slice_ok in H1; injection Hp as <-; lia).
+  all: try (apply bind_ok in Hp; destruct Hp as ([n p1] & H1 & Hp); apply de_u32_ok in H1;
+            first [discriminate | destruct (n <=? 1); [injection Hp as <-; lia|discriminate]]).
+  all: try (apply bind_ok in Hp; destruct Hp as ([[s' st] p1] & H1 & Hp); apply de_str_ok in H1;
+            first [injection Hp as <-; lia
+                  | destruct (validate_object_path s'); [injection Hp as <-; lia|discriminate]
+                  | destruct (parse_sig s'); [injection Hp as <-; lia|discriminate]]).
+  all: try (apply bind_ok in Hp; destruct Hp as (p0 & HP0 & Hp); apply bind_ok in Hp; destruct Hp as (d' & _ & Hp);
+            apply parse_padding_ok in HP0).
+  all: try (apply bind_ok in Hp; destruct Hp as ([n p1] & H1 & Hp); apply bind_ok in Hp; destruct Hp as (start & H2 & Hp);
+            apply de_u32_ok in H1; apply parse_padding_ok in H2).
+  all: try (cbn [wf] in Hw; apply arr_loop_bounds in Hp; [lia|intros q p'; apply IHs; exact Hw|lia]).
+  all: try (cbn [wf] in Hw; apply andb_prop in Hw; destruct Hw as [Hw1 Hw2];
+            apply dict_loop_bounds in Hp; [lia|intros q p'; apply IHs1; exact Hw1|intros q p'; apply IHs2; exact Hw2|lia]).
+  all: try (apply wf_struct in Hw; destruct Hw as [Hne Hall]; apply (struct_go_bounds _ b) in Hp; [lia|exact Hne|];
+            rewrite forallb_forall in Hall; rewrite Forall_forall in H |- *; intros f Hf q p'; apply H; [exact Hf|apply Hall; exact Hf]).
+  all: try (apply bind_ok in Hp; destruct Hp as ([vs vst] & H1 & Hp); apply bind_ok in Hp; destruct Hp as (d' & _ & Hp);
+            pose proof (variant_sig_wf _ _ _ _ _ H1); apply variant_sig_ok in H1;
+            first [discriminate | apply IHvf in Hp; [lia|assumption]]).
+Qed.
+
+Definition total_depth (d : depths) : N := d_struct d + d_array d + d_variant d.
+Lemma depth_check_ok d d' : depth_check d = Ok d' -> d' = d /\ total_depth d <= 64.
+Proof.
+  unfold depth_check, total_depth. destruct (32 <? _); [discriminate|]. destruct (32 <? _); [discriminate|].
+  destruct (64 <? _) eqn:E; [discriminate|]. intros [= <-]. split; [reflexivity|lia].
+Qed.
+Lemma depth_check_no_fuel d : depth_check d <> Err EFuel.
+Proof. unfold depth_check. repeat (destruct (_ <? _); try discriminate). Qed.
+
+Lemma prim_no_fuel :
+  (forall b pos a, parse_padding b pos a <> Err EFuel) /\ (forall b pos n, next_slice b pos n <> Err EFuel)
+  /\ (forall e b pos, de_u32 e b pos <> Err EFuel) /\ (forall b pos a, de_fixed b pos a <> Err EFuel)
+  /\ (forall w e b pos, de_str w e b pos <> Err EFuel) /\ (forall e b pos, variant_sig e b pos <> Err EFuel).
+Proof.
+  repeat split; intros; unfold variant_sig, de_str, de_fixed, de_u32, de_u8, next_slice, parse_padding;
+    repeat match goal with
+           | |- context [match ?x with _ => _ end] => destruct x; cbn [bind negb]; try discriminate
+           end.
+Qed.
+
+Lemma arr_loop_no_fuel elem b al endp : (forall q, elem q <> Err EFuel) -> (forall q p, elem q = Ok p -> q < p /\ p <= len b) ->
+  forall k q, len b - q < N.of_nat k -> arr_loop elem b al endp k q <> Err EFuel.
+Proof.
+  destruct prim_no_fuel as (Fpad & _). intros Hf He. induction k as [|k IH]; intros q Hk H; [lia|].
+  cbn [arr_loop] in H. destruct (q =? endp); [discriminate|].
+  apply bind_fuel in H. destruct H as [H|(q1 & H1 & H)]; [eapply Fpad; eauto|].
+  apply bind_fuel in H. destruct H as [H|(q2 & H2 & H)]; [eapply Hf; eauto|].
+  destruct (endp <? q2); [discriminate|]. apply parse_padding_ok in H1. apply He in H2. revert H. apply IH. lia.
+Qed.
+Lemma dict_loop_no_fuel kd vd b endp : (forall q, kd q <> Err EFuel) -> (forall q, vd q <> Err EFuel) ->
+  (forall q p, kd q = Ok p -> q < p /\ p <= len b) -> (forall q p, vd q = Ok p -> q < p /\ p <= len b) ->
+  forall k q, len b - q < N.of_nat k -> dict_loop kd vd b endp k q <> Err EFuel.
+Proof.
+  destruct prim_no_fuel as (Fpad & _). intros Hfk Hfv Hk Hv. induction k as [|k IH]; intros q Hq H; [lia|].
+  cbn [dict_loop] in H. destruct (q =? endp); [discriminate|].
+  apply bind_fuel in H. destruct H as [H|(q1 & H1 & H)]; [eapply Fpad; eauto|].
+  apply bind_fuel in H. destruct H as [H|(q2 & H2 & H)]; [eapply Hfk; eauto|].
+  destruct (endp <? q2); [discriminate|].
+  apply bind_fuel in H. destruct H as [H|(q3 & H3 & H)]; [eapply Hfv; eauto|].
+  destruct (endp <? q3); [discriminate|]. apply parse_padding_ok in H1. apply Hk in H2. apply Hv in H3. revert H. apply IH. lia.
+Qed.
+Lemma struct_go_no_fuel fld l : Forall (fun f => forall q, fld f q <> Err EFuel) l -> forall q, struct_go fld l q <> Err EFuel.
+Proof.
+  induction 1 as [|f r Hf Hr IH]; intros q H; cbn [struct_go] in H; [discriminate|].
+  apply bind_fuel in H. destruct H as [H|(q' & _ & H)]; [eapply Hf; eauto|eapply IH; eauto].
+Qed.
+
+(* variants nest at most 64 deep (ContainerDepths), so 64 levels of [vf] minus the depth already used always suffice *)
+Lemma de_value_no_fuel : forall vf s d e b pos, wf s = true -> 64 < N.of_nat vf + total_depth d ->
+  de_value vf s d e b pos <> Err EFuel.
+Proof.
+  destruct prim_no_fuel as (Fpad & Fns & Fu32 & Ffix & Fstr & Fvs).
+  induction vf as [|vf IHvf]; induction s using sig_ind'; intros d e b pos Hw Hd; rewrite de_value_eq; intros Hp;
+    try discriminate;
+    try (eapply Ffix; eauto; fail).
+  all: try (apply bind_fuel in Hp; destruct Hp as [Hp|([? ?] & _ & Hp)];
+            [first [solve [eapply Fns; eauto] | solve [eapply Fu32; eauto]]
+            |first [discriminate | destruct (_ <=? _); discriminate]]; fail).
+  all: try (apply bind_fuel in Hp; destruct Hp as [Hp|([[s' ?] ?] & _ & Hp)];
+            [eapply Fstr; eauto
+            |first [discriminate | destruct (validate_object_path s'); discriminate | destruct (parse_sig s'); discriminate]]; fail).
+  all: try (apply bind_fuel in Hp; destruct Hp as [Hp|(p0 & HP0 & Hp)]; [eapply Fpad; eauto|];
+            apply bind_fuel in Hp; destruct Hp as [Hp|(d' & Hd' & Hp)]; [eapply depth_check_no_fuel; eauto|];
+            apply depth_check_ok in Hd'; destruct Hd' as [-> Hd']; unfold total_depth in *;
+            cbn [d_struct d_array d_variant] in *).
+  all: try (apply bind_fuel in Hp; destruct Hp as [Hp|([n p1] & H1 & Hp)]; [eapply Fu32; eauto|];
+            apply bind_fuel in Hp; destruct Hp as [Hp|(start & H2 & Hp)]; [eapply Fpad; eauto|];
+            apply de_u32_ok in H1; apply parse_padding_ok in H2).
+  all: try (cbn [wf] in Hw; revert Hp; apply arr_loop_no_fuel;
+            [intros q; apply IHs; [exact Hw|unfold total_depth; cbn [d_struct d_array d_variant]; lia]
+            |intros q p'; apply de_value_bounds; exact Hw
+            |unfold len; lia]).
+  all: try (cbn [wf] in Hw; apply andb_prop in Hw; destruct Hw as [Hw1 Hw2]; revert Hp; apply dict_loop_no_fuel;
+            [intros q; apply IHs1; [exact Hw1|unfold total_depth; cbn [d_struct d_array d_variant]; lia]
+            |intros q; apply IHs2; [exact Hw2|unfold total_depth; cbn [d_struct d_array d_variant]; lia]
+            |intros q p'; apply de_value_bounds; exact Hw1
+            |intros q p'; apply de_value_bounds; exact Hw2
+            |unfold len; lia]).
+  all: try (apply wf_struct in Hw; destruct Hw as [Hne Hall]; revert Hp; apply struct_go_no_fuel;
+            rewrite forallb_forall in Hall; rewrite Forall_forall in H |- *; intros f Hf q; apply H;
+            [exact Hf|apply Hall; exact Hf|unfold total_depth; cbn [d_struct d_array d_variant]; lia]).
+  all: try (apply bind_fuel in Hp; destruct Hp as [Hp|([vs vst] & H1 & Hp)]; [eapply Fvs; eauto|];
+            apply bind_fuel in Hp; destruct Hp as [Hp|(d' & Hd' & Hp)]; [eapply depth_check_no_fuel; eauto|];
+            apply depth_check_ok in Hd'; destruct Hd' as [-> Hd']; unfold total_depth in *;
+            cbn [d_struct d_array d_variant] in *;
+            first [lia | revert Hp; apply IHvf; [eapply variant_sig_wf; eauto|unfold total_depth; cbn [d_struct d_array d_variant]; lia]]).
+Qed.
+
 (* ---------- header field values ---------- *)
 Definition fval_inv (b : bytes) (v : fval) : Prop :=
   match v with
   | FStr s st => str_at b s st
   | FPath s st => str_at b s st /\ validate_object_path s = true
-  | FSig _ | FU32 _ => True
+  | FSig _ | FU32 _ | FOther => True
   end.
 
-Lemma de_variant_ok e b pos v p : 1 <= pos -> de_variant e b pos = Ok (v, p) -> fval_inv b v /\ pos < p /\ p <= len b.
+Lemma de_variant_ok e b pos v p : 1 <= pos -> de_variant e b pos = Ok (v, p) -> fval_inv b v /\ pos < p.
 Proof.
   intros Hpos. unfold de_variant. intros H. apply bind_ok in H. destruct H as ([[sg st0] p1] & H0 & H).
   apply de_str_ok in H0. destruct H0 as (Ha & Hb & Hc & _).
@@ -99,7 +434,11 @@ Proof.
   destruct (len b <? pos + 1 + bn lb + 1) eqn:Evs; [discriminate|].
   assert (Hst : forall s st p2, de_str true e b (pos + 1 + bn lb + 1) = Ok (s, st, p2) -> str_at b s st /\ pos < p2 /\ p2 <= len b).
   { intros s1 st1 p2 Hs. apply de_str_ok in Hs. unfold str_at. intuition lia. }
-  destruct vs; try discriminate.
+  assert (Hother : forall vs', (let* p2 := de_value 64 vs' field_value_depths e b (pos + 1 + bn lb + 1) in Ok (FOther, p2)) = Ok (v, p) ->
+                    fval_inv b v /\ pos < p).
+  { intros vs' Ho. apply bind_ok in Ho. destruct Ho as (p2 & H2 & Ho). injection Ho as <- <-.
+    apply de_value_mono in H2. cbn. lia. }
+  destruct vs; try (apply Hother in H; exact H).
   - (* u32 *) apply bind_ok in H. destruct H as ([n p2] & H2 & H). injection H as <- <-.
     apply de_u32_ok in H2. cbn. lia.
   - (* str *) apply bind_ok in H. destruct H as ([[s st] p2] & H2 & H). injection H as <- <-.
@@ -122,7 +461,9 @@ Proof.
     destruct (parse_sig _) as [vs|]; [|discriminate].
     destruct (_ || _); [discriminate|].
     destruct (len b <? pos + 1 + bn c + 1); [discriminate|].
-    destruct vs; try discriminate.
+    assert (Hother : forall vs', (let* p2 := de_value 64 vs' field_value_depths e b (pos + 1 + bn c + 1) in Ok (FOther, p2)) <> Panic p).
+    { intros vs' Ho. apply bind_panic in Ho. destruct Ho as [Ho|(? & _ & Ho)]; [eapply de_value_no_panic; eauto|discriminate]. }
+    destruct vs; try (apply Hother in H; exact H).
     + apply bind_panic in H. destruct H as [H|([? ?] & _ & H)]; [eapply de_u32_no_panic; eauto|discriminate].
     + apply bind_panic in H. destruct H as [H|([[? ?] ?] & _ & H)]; [eapply de_str_no_panic; eauto|discriminate].
     + apply bind_panic in H. destruct H as [H|([[s ?] ?] & _ & H)]; [eapply de_str_no_panic; eauto|].
@@ -132,11 +473,10 @@ Proof.
 Qed.
 
 Lemma de_field_ok e b pos code v p : 1 <= pos -> de_field e b pos = Ok (code, v, p) ->
-  fval_inv b v /\ pos < p /\ p <= len b /\ pos < len b /\ 1 <= code <= 9.
+  fval_inv b v /\ pos < p /\ pos < len b.
 Proof.
   intros Hpos. unfold de_field. intros H. apply bind_ok in H. destruct H as (p0 & H0 & H).
   apply bind_ok in H. destruct H as ([c p1] & H1 & H).
-  destruct ((1 <=? c) && (c <=? 9)) eqn:Ec; [|discriminate].
   apply bind_ok in H. destruct H as ([v' p2] & H2 & H). injection H as <- <- <-.
   apply parse_padding_ok in H0. apply de_u8_ok in H1. apply de_variant_ok in H2; [|lia]. intuition lia.
 Qed.
@@ -144,40 +484,37 @@ Lemma de_field_no_panic e b pos p : de_field e b pos <> Panic p.
 Proof.
   unfold de_field. intros H. apply bind_panic in H. destruct H as [H|(p0 & _ & H)]; [eapply parse_padding_no_panic; eauto|].
   apply bind_panic in H. destruct H as [H|([c p1] & _ & H)]; [eapply de_u8_no_panic; eauto|].
-  destruct (_ && _); [|discriminate].
   apply bind_panic in H. destruct H as [H|([? ?] & _ & H)]; [eapply de_variant_no_panic; eauto|discriminate].
-Qed.
-Lemma de_field_no_fuel e b pos : de_field e b pos <> Err EFuel.
-Proof.
-  unfold de_field, de_variant, de_str, de_u32, de_u8, next_slice, parse_padding.
-  repeat match goal with
-         | |- context [match ?x with _ => _ end] => destruct x; cbn [bind negb]; try discriminate
-         end.
 Qed.
 
 (* ---------- the fields record ---------- *)
 Definition ostr_at (b : bytes) (o : option (bytes * N)) : Prop :=
   match o with Some (s, st) => str_at b s st | None => True end.
+Definition ovalid (v : bytes -> bool) (o : option (bytes * N)) : Prop :=
+  match o with Some (s, _) => v s = true | None => True end.
+(* every string field is the bytes at its recorded offset, and a valid name of its kind (all six are validated at parse
+   time since fix b3fdf920) *)
 Definition fields_inv (b : bytes) (fs : fields) : Prop :=
   ostr_at b (f_path fs) /\ ostr_at b (f_iface fs) /\ ostr_at b (f_member fs) /\ ostr_at b (f_errname fs)
   /\ ostr_at b (f_dest fs) /\ ostr_at b (f_sender fs)
-  /\ (forall s st, f_path fs = Some (s, st) -> validate_object_path s = true)
-  /\ (forall s st, f_dest fs = Some (s, st) -> validate_bus s = true).
+  /\ ovalid validate_object_path (f_path fs) /\ ovalid validate_interface (f_iface fs) /\ ovalid validate_member (f_member fs)
+  /\ ovalid validate_error (f_errname fs) /\ ovalid validate_bus (f_dest fs) /\ ovalid validate_unique (f_sender fs).
 
 Lemma fields_inv_empty b : fields_inv b fields_empty.
-Proof. unfold fields_inv, fields_empty; cbn. repeat split; auto; discriminate. Qed.
+Proof. unfold fields_inv, fields_empty; cbn. tauto. Qed.
 
 Lemma set_field_inv b fs code v fs' : fields_inv b fs -> fval_inv b v -> set_field fs code v = Ok fs' -> fields_inv b fs'.
 Proof.
-  unfold fields_inv. intros (H1 & H2 & H3 & H4 & H5 & H6 & H7 & H8) Hv H.
+  unfold fields_inv. intros (H1 & H2 & H3 & H4 & H5 & H6 & V1 & V2 & V3 & V4 & V5 & V6) Hv H.
   unfold set_field in H.
   repeat match type of H with
          | (if ?x then _ else _) = _ => destruct x eqn:?; try discriminate
          | match ?x with _ => _ end = _ => destruct x; try discriminate
          end;
-    injection H as <-; cbn [f_path f_iface f_member f_errname f_reply f_dest f_sender f_sig f_fds ostr_at]; cbn [fval_inv] in Hv;
-    refine (conj _ (conj _ (conj _ (conj _ (conj _ (conj _ (conj _ _)))))));
-    try assumption; try (apply Hv); try (intros s' st' [= <- <-]; (assumption || apply Hv)).
+    injection H as <-; cbn [f_path f_iface f_member f_errname f_reply f_dest f_sender f_sig f_fds ostr_at ovalid]; cbn [fval_inv] in Hv;
+    repeat match goal with Hn : negb _ = false |- _ => apply Bool.negb_false_iff in Hn end;
+    refine (conj _ (conj _ (conj _ (conj _ (conj _ (conj _ (conj _ (conj _ (conj _ (conj _ (conj _ _)))))))))));
+    try assumption; try (apply Hv).
 Qed.
 
 Lemma set_field_no_panic fs code v p : set_field fs code v <> Panic p.
